@@ -108,11 +108,11 @@ UNITS = ['', 'Channel', 'RFI', 'a.u.', 'au', 'MEF', 'rfi', 'mef', 'A.U.', 'chann
 
 
 def experiment(rng, base_dir, n_inst=None, n_beads=None, n_samples=None, units_pool=UNITS, float_frac=0.3,
-               npop=4, fractions=(0.3, 0.5, 0.85, 1.0)):
+               npop=4, fractions=(0.3, 0.5, 0.85, 1.0), nfl=None):
     """Writes FCS files under base_dir and returns (instruments_df, beads_df, samples_df, info)."""
     os.makedirs(base_dir, exist_ok=True)
     n_inst = n_inst or int(rng.integers(1, 4))
-    insts = [instrument(i, int(rng.integers(1, 4))) for i in range(n_inst)]
+    insts = [instrument(i, nfl or int(rng.integers(1, 4))) for i in range(n_inst)]
     allfl = sorted(set(ch for it in insts for ch in it['fl']))
     itab = pd.DataFrame([{'ID': it['ID'], 'Forward Scatter Channel': it['fsc'], 'Side Scatter Channel': it['ssc'],
                           'Fluorescence Channels': ', '.join(it['fl']), 'Time Channel': it['time'], 'Comment': 'c%d' % i}
